@@ -258,6 +258,10 @@ def run_property(pid, tier, seed, replay=None):
     if not phases:
         phases = [{"gen": pid, "runs": [(p, "both") for p in profiles],
                    "validate": [(i, None) for i in range(len(profiles))]}]
+    if spec.get("hunt") and not replay:
+        # mass screening against the naive oracle; whatever it forwards is judged by the specification
+        phases = list(phases) + [{"hunt": pid, "runs": [(profiles[0], "both")], "validate": [(0, None)]}]
+    hunt_stats = []
     if replay and '"call"' in open(replay).readline():
         mm = os.path.join(outdir, "mismatch.ndjson")
         rr = vdrive(profiles[0], ["replay", replay, mm])
@@ -276,8 +280,14 @@ def run_property(pid, tier, seed, replay=None):
             script = ph["script"]
         else:
             script = os.path.join(outdir, "script_%d.ndjson" % pi)
-            g = vdrive(profiles[0], ["gen", ph["gen"], tier, str(seed), script])
-            log("[gen] %s: %s" % (ph["gen"], g))
+            if "hunt" in ph:
+                budget = spec.get("hunt_ms", (4000, 90000))[1 if tier == "thorough" else 0]
+                g = vdrive(profiles[0], ["hunt", ph["hunt"], str(seed), str(budget), script])
+                log("[hunt] %s: %s" % (ph["hunt"], g))
+                hunt_stats.append(g)
+            else:
+                g = vdrive(profiles[0], ["gen", ph["gen"], tier, str(seed), script])
+                log("[gen] %s: %s" % (ph["gen"], g))
             scripts.append(script)
         run_chunks = []
         for ri, (prof, ty) in enumerate(ph["runs"]):
@@ -366,6 +376,9 @@ def run_property(pid, tier, seed, replay=None):
         "trace_chunks": len(all_chunks), "profiles": profiles,
         "exhaustive": False,
     }
+    if hunt_stats:
+        cov["screened_against_naive_oracle"] = sum(h.get("screened", 0) for h in hunt_stats)
+        cov["forwarded_as_suspicious"] = sum(h.get("suspicious", 0) for h in hunt_stats)
     write_evidence(pid, tier, seed, time.time() - t0, cov, spec.get("assumptions", []), new_viol)
     log("[done] %s tier=%s: %d strict checks, %d episodes (%d skipped), %d violations (%d new), %.0fs"
         % (pid, tier, nchk, neps, nskip, len(viol_records), new_viol, time.time() - t0))
